@@ -192,6 +192,8 @@ var c13BadPatterns = []string{
 	"/{a:[z-a]}", "/{a:x{3,1}}", "/{a:\\}", "/{ a : \\d+ }", "/{a:b}{c}", "/{a}-{b}", "/[x]", "[/x]", "/a.{ext:(?:js|css)}",
 	"/{a:.+\\.(?:css|js)}", "/a[.html]", "/{all}", "/files/{f:.*}", "/{a:x|y}", "/{a:[^/]+}", "/{id:[0-9]{1,3}}", "/*", "/a*", "/a+b",
 	"/" + strings.Repeat("seg", 24) + "/{id}", "/" + strings.Repeat("x", 130) + "/{a}/{b}", "/" + strings.Repeat("ab", 40),
+	// an optional part in the middle AND one that closes the path (brackets balanced, last character ']')
+	"/a[/b]/c[/d]", "/x[y][z]", "/blog[/{category}]/{id}[.html]", "/m[/n]/o[/p[/q]]", "/[a]b[c]", "/a[/{b}]/{c}[/{d}]",
 }
 var c13BadMethods = []string{"DEL", "P", "OPT", "", " ", "get", " post ", "GET,POST", "FOO", "PATCH", "GETX", "TRACE", "po\u017ft", "option\u017f", "G\u00cbT", "\u017f", "connect\u0131"}
 var c13HostilePaths = []string{"", " ", "  ", "\t", "/", "//", "///", "/ /", " /", "/ ", "\t/\n", " // ", "/\xff", "\xfe\xff", "/a\x00b", "/%zz", strings.Repeat("/a", 40), "/u/ab", "/u/12",
@@ -332,14 +334,53 @@ func init() {
 	props["C06"] = &Prop{Gen: c06Gen, Exec: rtExecFor("C06"), Classify: rtClassify}
 	props["C07"] = &Prop{Gen: c07Gen, Exec: rtExecFor("C07"), Classify: c07Classify}
 	props["C13"] = &Prop{Gen: c13Gen, Exec: c13Exec, Classify: c13Classify}
-	c14rGen = func(r *Rng, tier string, i int) Sx { return c07Gen(r, tier, i) }
+	c14rGen = func(r *Rng, tier string, i int) Sx {
+		c := c07Gen(r, tier, i)
+		if r.Chance(1, 3) {
+			c = c14rLate(r, c)
+		}
+		return c
+	}
 	c14rExec = rtExecFor("C14")
 	c14rClassify = func(c, obs Sx) []string {
 		o := obs.String()
 		labs := []string{"router-history"}
+		if strings.Contains(c.String(), "(a (") {
+			labs = append(labs, "route-registered-between-lookups")
+		}
 		if strings.Contains(o, "(keys (") && strings.Contains(c.String(), "(cache ") && !strings.Contains(c.String(), "(cache 0)") {
 			labs = append(labs, "nt:router-cache-populated")
 		}
 		return labs
 	}
+}
+
+// c14rLate: a router that keeps growing while it serves. One or two more dynamic routes are registered between two lookups
+// of the history (the cache is left alone by a registration: a key stored before is still there, in the same position), and
+// the lookups that follow include their paths. Small capacities, so that entries stored before the registration are evicted
+// after it.
+func c14rLate(r *Rng, c Sx) Sx {
+	xs := c.Lst()
+	opts := xs[1].Lst()
+	for k, o := range opts {
+		if o.Head() == "cache" && r.Chance(2, 3) {
+			opts[k] = L(A("cache"), I(r.Range(1, 3)))
+		}
+	}
+	qs := append([]Sx{}, xs[3].Lst()...)
+	n := r.Range(1, 2)
+	for k := 0; k < n && len(qs) >= 4; k++ {
+		at := r.Range(2, len(qs)-1)
+		lit := fmt.Sprintf("late%d", k)
+		def := L(A("a"), SL([]string{"GET"}), S("/"+lit+"/{id}"), B(false))
+		var rest []Sx
+		for j, q := range qs[at:] {
+			rest = append(rest, q)
+			if j%3 == 1 {
+				rest = append(rest, L(A("m"), S("GET"), S(fmt.Sprintf("/%s/%d", lit, r.Intn(2)))))
+			}
+		}
+		qs = append(append(append([]Sx{}, qs[:at]...), def), rest...)
+	}
+	return L(A("rt"), LS(opts), xs[2], LS(qs))
 }
